@@ -36,6 +36,8 @@ PROP = dict(
         dict(name="roundtrip", pkg="c10", run="^TestC10_RoundTrip$", shards=FFTS, checks=(3000, 30000), weight=3, timeout=T),
         dict(name="io", pkg="c10", run="^TestC10_(DomainIO|BitReverseRandom|Generator)$", shards=FFTS, checks=(600, 6000), timeout=T),
         dict(name="bitreverse", pkg="c10", run="^TestC10_BitReverse$", shards=FFTS, rapid=False),
+        # one specialised cobra routine per size 2^21..2^27: all slots, small-element fields
+        dict(name="bitreverse_large", pkg="c10", run="^TestC10_BitReverseLarge$", shards=["koalabear", "goldilocks"], rapid=False, weight=5),
         dict(name="sched", pkg="c10", run="^TestC10_Sched$", shards=FFTS, rapid=False, weight=5, timeout=T),
         dict(name="race", pkg="c10", run="^TestC10_Sched$", shards=FFTS, rapid=False, race=True, tiers=("thorough",), weight=8,
              timeout=T),
